@@ -81,6 +81,19 @@ let dump_tree (tr : tree) (buf : Buffer.t) =
   | Some root -> walk_layer root "-" []
   | None -> ()
 
+
+(* version word of every node of a tree, by id (for the staleness test of C05) *)
+let versions_of (tr : tree) : (int, n) Hashtbl.t =
+  let h = Hashtbl.create 64 in
+  let rec walk t = match t with
+    | BLeaf l -> Hashtbl.replace h (int_of_n l.lf_id) l.lf_ver
+    | BInt (id, ver, _, ch) -> Hashtbl.replace h (int_of_n id) ver; List.iter walk ch in
+  List.iter (fun (_, t) -> walk t) tr.t_layers; h
+
+let rec lexlt (a : n list) (b : n list) = match a, b with
+  | _, [] -> false | [], _ :: _ -> true
+  | x :: a', y :: b' -> let c = compare (int_of_n x) (int_of_n y) in if c < 0 then true else if c > 0 then false else lexlt a' b'
+
 let aval_s (v : aval) len_of =
   if v.av_inline then "w" ^ word_of_bytes v.av_bytes else hex_of_bytes v.av_bytes
 
@@ -180,6 +193,50 @@ let () =
              (String.concat "" (List.map (fun (id, ver) -> " " ^ id_s id ^ ":" ^ hex_of_n ver) so.so_nv))
          | RStatus s -> printf_m "scan %s n=0 t=[ ] nv=[ ]" (status_s s)
          | _ -> print_endline "scan STUCK")
+      | ("phantom" | "getmiss") as opn :: s :: rest ->
+        let sname = bytes_of_hex s in
+        let tree_of () = match find_storage !st sname with
+          | Some (Some sid) -> trees_get !st.sy_trees sid | _ -> None in
+        let (status, nres, cov, nv, k, v) =
+          (match opn, rest with
+           | "phantom", l :: le :: r :: re :: mx :: rtl :: k :: v :: _ ->
+             let (lk, ln) = key_tok l and (rk, rn) = key_tok r in
+             let a = { sa_l = lk; sa_le = ep_of le; sa_r = rk; sa_re = ep_of re;
+                       sa_max = nat_of_int (int_of_string mx); sa_rtl = (rtl = "1"); sa_lnull = ln; sa_rnull = rn } in
+             let k = bytes_of_hex k in
+             (match exec !st (OScan (sname, a)) with
+              | (_, RScan so) ->
+                let absent = (match exec !st (OGet (sname, k)) with (_, RGet g) -> g.go_status = St_WARN_NOT_EXIST | _ -> false) in
+                let lks = if a.sa_le = EP_INF then [] else lk in
+                let inl = a.sa_le = EP_INF || lexlt lks k || (lks = k && a.sa_le = EP_INCL) in
+                let inr = a.sa_re = EP_INF || lexlt k rk || (k = rk && a.sa_re = EP_INCL) in
+                let n = List.length so.so_tuples and mxi = int_of_string mx in
+                let cov = so.so_status = St_OK && absent && inl && inr in
+                let cov = if cov && mxi <> 0 && n >= mxi then
+                    (let last = fst (List.nth so.so_tuples (n - 1)) in
+                     if rtl = "1" then lexlt last k else lexlt k last) else cov in
+                (so.so_status, n, cov, so.so_nv, k, bytes_of_hex v)
+              | (_, RStatus stt) -> (stt, 0, false, [], k, bytes_of_hex v)
+              | _ -> (St_ERR_FATAL, 0, false, [], k, bytes_of_hex v))
+           | "getmiss", k :: v :: _ ->
+             let k = bytes_of_hex k in
+             (match exec !st (OGet (sname, k)) with
+              | (_, RGet g) ->
+                (g.go_status, 0, g.go_status = St_WARN_NOT_EXIST,
+                 (match g.go_checked with Some x -> [x] | None -> []), k, bytes_of_hex v)
+              | (_, RStatus stt) -> (stt, 0, false, [], k, bytes_of_hex v)
+              | _ -> (St_ERR_FATAL, 0, false, [], k, bytes_of_hex v))
+           | _ -> failwith "phantom args") in
+        let ps = if cov then
+            (match exec !st (OPut (sname, k, v, n_of_int 1, false, false)) with
+             | (s', RPut po) -> st := s'; ignore (spec_exec !sp (OPut (sname, k, v, n_of_int 1, false, false)) |> fun (p', _) -> sp := p'); status_s po.po_status
+             | _ -> "STUCK") else "OK" in
+        let det = cov && (match tree_of () with
+            | Some tr -> let h = versions_of tr in
+              List.exists (fun (id, ver) -> match Hashtbl.find_opt h (int_of_n id) with
+                  | Some cur -> not (N.eqb cur ver) | None -> true) nv
+            | None -> false) in
+        printf_m "%s %s n=%d cov=%s det=%s nvn=%d put=%s" opn (status_s status) nres (b2s cov) (b2s det) (List.length nv) ps
       | "dump" :: s :: _ ->
         (match find_storage !st (bytes_of_hex s) with
          | Some (Some sid) ->
